@@ -203,3 +203,22 @@ PROPS["C14"] = dict(
              "placement:31-byte-operand-at-page-offset-4065-vs-page-start", "findmember-queries-with-map", "lookup:hit", "lookup:miss"],
     assumptions=["glibc memcmp as reference; page size 4096"],
 )
+
+# ------------------------------------------------------------------------------------------------ C05
+PROPS["C05"] = dict(
+    title="String literals decode exactly per RFC 8259 escapes, wherever they sit",
+    rule=("literal spellings: each of the 8 short escapes and 6 \\u classes at every offset 0..70 with 10 tail lengths; all 65536 single "
+          "\\uXXXX in lower/upper/mixed hex; valid surrogate pairs (every high x 64 lows; thorough every pair); every high x 8 "
+          "non-low continuations, lone highs/lows in 6 contexts, wrong order; every raw byte at 11 offsets x 3 tails (also after an "
+          "earlier escape); backslash + each of 256 bytes; each byte in each of the 4 hex positions; control byte sharing a block with "
+          "the first backslash; plain lengths 0..300; random literals. Each literal is judged as array value, DOM key and on-demand key, "
+          "at pads 0..31 (all 32 for a subset); oracle = reference decoder (strict surrogate pairing); distinct = hash(raw literal, pad)"),
+    runs=[
+        dict(name="asan-hsw", src="string_harness.cpp", cfg="asan-hsw", env=ASAN_ENV),
+        dict(name="asan-wsm", src="string_harness.cpp", cfg="asan-wsm", env=ASAN_ENV),
+        dict(name="prod-dyn", src="string_harness.cpp", cfg="prod-dyn", env={}, tiers=("thorough",)),
+    ],
+    require=["literal:well-formed", "literal:malformed", "role:value", "role:dom-key", "role:on-demand-key", "surrogate:valid-pair",
+             "surrogate:pairing-fault", "audit:escape-table-entries", "every_u16", "every_byte"],
+    assumptions=["reference decoder jm::ref_string written from RFC 8259 section 7"],
+)
